@@ -32,11 +32,24 @@ def single_core(ctx):
         g = cg.CallGraph(cr)
         callers = set(g.callers("rules::eval::eval_rules_file"))
         callers = set(c for c in callers if not c.startswith("rules::eval"))
+        # a private helper that only the expected callers call stands for them (the per-input step of a reporter split off into a helper)
+        from engine import ai as AIM
+        for c in sorted(callers):
+            fc = cr.fns.get(c)
+            if c in EXPECTED_CALLERS or fc is None or not AIM.is_private_fn(fc):
+                continue
+            up = set(x.split("::{closure")[0] for x in g.callers(c))
+            if up and up <= EXPECTED_CALLERS:
+                callers.discard(c)
+                callers |= up
         if cr is ctx.lib:
             ctx.note_analysed("eval_rules_file_callers", sorted(callers))
+        from engine import flow
         for c in sorted(callers):
             f = cr.fns[c]
-            called = set(t["fn"].get("key", "") for bi, t in M.iter_calls(f))
+            called = set()
+            for uk in flow.unit_functions(cr, c, ("::".join(c.lstrip("<").split(" as ")[0].split("::")[:3]) + "::",)):
+                called |= set(t["fn"].get("key", "") for bi, t in M.iter_calls(cr.fns[uk]))
             ctx.ob(rule, "%s:%s:fresh-scope:%s" % (rule, cr.name.split("-")[1], c), "rules::eval_context::root_scope" in called,
                    "caller of eval_rules_file must build its resolver with root_scope", fn=f,
                    sample={"caller": c} if c.endswith("evaluate_against_data_input") and cr is ctx.lib else None)
